@@ -12,6 +12,8 @@ def gen_spec(rng, allow):
         pre=rng.randrange(0,3) if 'pre' in allow else 0
         rules=[]
         for ri in range(rng.randrange(1,6)):
+            ppre=pre
+            if 'mixed' in allow: pre=rng.randrange(0,3)
             L=pre+rng.randrange(1,4); pat=[rng.randrange(ncls) for _ in range(L)]
             acts=[]
             for k in range(pre,L):
@@ -22,7 +24,9 @@ def gen_spec(rng, allow):
                     a.append(('put_subs',off,incl,rng.choice(cands)))
                 elif r<0.55 and 'delete' in allow: a.append(('delete',))
                 elif r<0.65 and 'insert' in allow:
-                    a.append(('insert',)); a.append(('put_glyph',rng.randrange(ncls))); a.append(('assoc',[rng.choice([o for o in range(-k,L-k) if not (o<0 and k+o-pre>=0 and any(x[0]=='assoc' for x in acts[k+o-pre]))] or [0])])); a.append(('endins',))
+                    a.append(('insert',)); a.append(('put_glyph',rng.randrange(ncls)))
+                    if not ('noassoc' in allow and rng.random()<0.5): a.append(('assoc',[rng.choice([o for o in range(-k,L-k) if not (o<0 and k+o-pre>=0 and any(x[0]=='assoc' for x in acts[k+o-pre]))] or [0])]))
+                    a.append(('endins',))
                 elif r<0.75: a.append(('attr','AdvX',('const',rng.randrange(-50,900))))
                 elif r<0.85: a.append(('user',rng.randrange(2),('const',rng.randrange(-3,4))))
                 elif r<0.9 and 'copy' in allow:
@@ -37,7 +41,8 @@ def gen_spec(rng, allow):
                     if rng.random()<0.3:
                         lhs=rng.choice([('gattr',0,4),('gattr',0,5),('uattr',0,0),('uattr',0,1)])
                         cons[k]=(rng.choice(['eq','ne','lt','gt','le','ge']),lhs,('const',rng.randrange(-2,4)))
-            rules.append({'pat':pat,'acts':acts,'cons':cons,'ret':(rng.choice([0,0,0,-1,-2,1,2,-3]) if 'ret' in allow else 0)})
+            rules.append({'pre':pre,'pat':pat,'acts':acts,'cons':cons,'ret':(rng.choice([0,0,0,-1,-2,1,2,-3]) if 'ret' in allow else 0)})
+            pre=ppre
         passes.append({'type':'sub','pre':pre,'maxloop':(rng.choice([1,2,3,5,8]) if 'ret' in allow else 5),'rules':rules})
     if 'attach' in allow:
         rules=[]
@@ -48,6 +53,12 @@ def gen_spec(rng, allow):
             if rng.random()<0.7: acts[k]+= [('attr',rng.choice(['AttX','AttY','AttWithX','AttWithY']),('const',rng.randrange(-200,400)))]
             if rng.random()<0.4: acts[k]+= [('attr','ShiftY',('const',rng.randrange(-100,100)))]
             if rng.random()<0.3: acts[rng.randrange(L)]+= [('attr','AdvX',('const',rng.choice([0,0,-30,200,900])))]
+            if 'multi' in allow and L>=3 and rng.random()<0.6:
+                base=rng.randrange(L)
+                for kk in range(L):
+                    if kk!=base:
+                        acts[kk]=[('attach',base-kk),('attr',rng.choice(['AttX','AttY','AttWithX']),('const',rng.randrange(-300,600)))]
+                        if rng.random()<0.5: acts[kk].append(('attr','AdvX',('const',rng.choice([0,0,100,700]))))
             rules.append({'pat':pat,'acts':acts,'cons':[None]*L,'ret':0})
         passes.append({'type':'pos','pre':0,'maxloop':5,'rules':rules})
     fdir=rng.randrange(2) if 'rtl' in allow else 0
